@@ -253,6 +253,20 @@ func run(rc *kernel.RunCtx, k *kernel.Kernel) map[string]any {
 	srv := proxy.NewServer(log, stub, proxy.NewSourceMapCache(), proxy.NewDiagnosticCache(), true)
 	_, conn, _ := lspp.NewServer(context.Background(), srv, jsonrpc2.NewStream(ioS), log)
 
+	// lock hand-overs (document store, source map cache, conn) as seams for a random subset of runs
+	yieldP := []int{0, 0, 1, 2, 4}[t.Choose(5, "unlock-yield-rate")]
+	nyield := 0
+	simsync.SetAfterUnlock(func() {
+		if yieldP == 0 || !k.Quiescing.Load() || k.Capped() {
+			return
+		}
+		if t.Chance(yieldP, 8, "yield-after-unlock") {
+			nyield++
+			k.Count("probe_parked_right_after_unlock", 1)
+			k.Park(fmt.Sprintf("unlock#%d", nyield), "yield", "", nil)
+		}
+	})
+	defer simsync.SetAfterUnlock(nil)
 	const uri = "file:///w/a.templ"
 	const goURI = "file:///w/a_templ.go"
 	ref := ""
